@@ -1240,7 +1240,10 @@ def eliminate_config_objects(trees, report, unknown=None):
                     if isinstance(x.ctx, ast.Load):
                         a_ = pm2.get(id(x))
                         c_ = pm2.get(id(a_)) if a_ is not None else None
-                        if not (isinstance(a_, ast.Attribute) and a_.value is x and a_.attr in other and isinstance(c_, ast.Call) and c_.func is a_):
+                        is_call = isinstance(a_, ast.Attribute) and a_.value is x and a_.attr in other and isinstance(c_, ast.Call) and c_.func is a_
+                        # ... or to read one of its fields (never rebound after construction: the local that holds it is the field)
+                        is_field = isinstance(a_, ast.Attribute) and a_.value is x and a_.attr in fields and isinstance(a_.ctx, ast.Load)
+                        if not (is_call or is_field):
                             ok = False
                 if any(f"{name}__{f}" in {y.id for y in ast.walk(fn) if isinstance(y, ast.Name)} for f in fields):
                     ok = False
@@ -1296,6 +1299,15 @@ def eliminate_config_objects(trees, report, unknown=None):
                         if isinstance(x, ast.Call) and isinstance(x.func, ast.Attribute) and isinstance(x.func.value, ast.Name) and x.func.value.id == name and x.func.attr in other:
                             x.args = [ast.Name(id=f"{name}__{f}", ctx=ast.Load()) for f in fields] + list(x.args)
                             x.func = ast.copy_location(ast.Name(id=fname(x.func.attr), ctx=ast.Load()), x.func)
+
+                    class _FieldReads(ast.NodeTransformer):
+                        def visit_Attribute(self, n_):
+                            self.generic_visit(n_)
+                            if isinstance(n_.value, ast.Name) and n_.value.id == name and n_.attr in fields and isinstance(n_.ctx, ast.Load):
+                                return ast.copy_location(ast.Name(id=f"{name}__{n_.attr}", ctx=ast.Load()), n_)
+                            return n_
+
+                    fn.body = [_FieldReads().visit(st_) for st_ in fn.body]
                     ast.fix_missing_locations(fn)
                 changed.add(r2)
             i = next(k for k, x in enumerate(tree.body) if x is K)
@@ -1906,6 +1918,198 @@ def resolve_module_aliases(trees, report, unknown=None):
     return changed
 
 
+def scalarise_local_objects(trees, report, unknown=None):
+    """A private class the reference does not know, without bases, whose __init__ only fills fields of `self` (by
+    any code that does not let `self` escape) and whose other methods are single `return <expression>`s, every instance
+    of which lives in one local of one function (`v = K(a, b)`, then only `v.field` reads and `v.method(..)` calls):
+    the local is replaced by one local per field, the constructor body is expanded in place, method calls by their
+    expression.  (An index built in a constructor, a pair of tables travelling together inside one function.)"""
+    inv = load_inventory()
+    if inv is None:
+        return set()
+    changed = set()
+    known = {c for rel in inv.get("modules", {}) for c in inv["modules"][rel] if "." not in c}
+    classes = {}
+    for rel, t in trees.items():
+        for st in t.body:
+            if isinstance(st, ast.ClassDef) and st.name.startswith("_") and not st.bases and not st.decorator_list and not st.keywords:
+                if any(st.name == k or k.startswith(st.name + ".") for k in inv.get("modules", {}).get(rel, {})):
+                    continue
+                classes[st.name] = (rel, st)
+    for K, (rel, cnode) in list(classes.items()):
+        init, methods, ok = None, {}, True
+        for st in cnode.body:
+            if isinstance(st, ast.Expr) and isinstance(st.value, ast.Constant):
+                continue
+            if isinstance(st, ast.Assign) and len(st.targets) == 1 and isinstance(st.targets[0], ast.Name) and st.targets[0].id == "__slots__":
+                continue
+            if isinstance(st, ast.AnnAssign) and st.value is None:
+                continue
+            if isinstance(st, ast.FunctionDef) and not st.decorator_list and st.args.args and st.args.args[0].arg == "self" and not st.args.vararg and not st.args.kwarg and not st.args.kwonlyargs and not st.args.defaults:
+                if st.name == "__init__":
+                    init = st
+                elif not st.name.startswith("__"):
+                    body = _strip_doc(st.body)
+                    if len(body) == 1 and isinstance(body[0], ast.Return) and body[0].value is not None:
+                        methods[st.name] = (st, body[0].value)
+                    else:
+                        ok = False
+                else:
+                    ok = False
+            else:
+                ok = False
+        if not ok or init is None:
+            continue
+        # self does not escape from __init__ and the methods: only `self.<field>` occurrences
+        fields = set()
+        for fn in [init] + [m for m, _ in methods.values()]:
+            pm = {}
+            for n in ast.walk(fn):
+                for c in ast.iter_child_nodes(n):
+                    pm[id(c)] = n
+            for n in ast.walk(fn):
+                if isinstance(n, ast.Name) and n.id == "self":
+                    par = pm.get(id(n))
+                    if not (isinstance(par, ast.Attribute) and par.value is n):
+                        ok = False
+                    elif fn is init:
+                        fields.add(par.attr)
+                if isinstance(n, (ast.Return,)) and fn is init and n.value is not None:
+                    ok = False
+                if isinstance(n, (ast.Yield, ast.YieldFrom, ast.Await, ast.Lambda, ast.FunctionDef)) and n is not fn:
+                    ok = False
+        if not ok or fields & set(methods):
+            continue
+        # every use of the class name: `v = K(args)` with plain arguments, v a local of a function
+        uses = [(r2, n) for r2, t in trees.items() for n in ast.walk(t) if isinstance(n, ast.Name) and n.id == K]
+        anns = set()
+        for r2, t in trees.items():
+            for n in ast.walk(t):
+                if isinstance(n, ast.arg) and n.annotation is not None:
+                    anns |= {id(x) for x in ast.walk(n.annotation)}
+                elif isinstance(n, ast.AnnAssign):
+                    anns |= {id(x) for x in ast.walk(n.annotation)}
+                elif isinstance(n, (ast.FunctionDef, ast.AsyncFunctionDef)) and n.returns is not None:
+                    anns |= {id(x) for x in ast.walk(n.returns)}
+        sites = []
+        for r2, t in trees.items():
+            for fn in ast.walk(t):
+                if not isinstance(fn, (ast.FunctionDef, ast.AsyncFunctionDef)):
+                    continue
+                for blk_owner in ast.walk(fn):
+                    for fld in ("body", "orelse", "finalbody"):
+                        blk = getattr(blk_owner, fld, None)
+                        if not isinstance(blk, list):
+                            continue
+                        for i, st in enumerate(blk):
+                            if isinstance(st, ast.Assign) and len(st.targets) == 1 and isinstance(st.targets[0], ast.Name) and isinstance(st.value, ast.Call) and isinstance(st.value.func, ast.Name) and st.value.func.id == K:
+                                sites.append((r2, fn, blk, i, st))
+        site_funcs = {id(x[4].value.func) for x in sites}
+        if not sites or any(id(n) not in site_funcs and id(n) not in anns for _, n in uses):
+            continue
+        params = [a.arg for a in init.args.args[1:]]
+        good = True
+        plans = []
+        for r2, fn, blk, i, st in sites:
+            v = st.targets[0].id
+            call = st.value
+            if call.keywords or len(call.args) != len(params) or any(isinstance(a, ast.Starred) for a in call.args):
+                good = False
+                break
+            # v: bound here only, used only as v.<field> (load) or v.<method>(..)
+            pm = {}
+            for n in ast.walk(fn):
+                for c in ast.iter_child_nodes(n):
+                    pm[id(c)] = n
+            for n in ast.walk(fn):
+                if isinstance(n, ast.Name) and n.id == v and n is not st.targets[0]:
+                    par = pm.get(id(n))
+                    if not (isinstance(par, ast.Attribute) and par.value is n and isinstance(par.ctx, ast.Load) and isinstance(n.ctx, ast.Load)):
+                        good = False
+                    elif par.attr in methods:
+                        gp = pm.get(id(par))
+                        m_args = [a.arg for a in methods[par.attr][0].args.args[1:]]
+                        if not (isinstance(gp, ast.Call) and gp.func is par and not gp.keywords and len(gp.args) == len(m_args) and all(isinstance(a, (ast.Name, ast.Constant)) or (isinstance(a, ast.Subscript) and isinstance(a.value, ast.Name) and isinstance(a.slice, ast.Constant)) for a in gp.args)):
+                            good = False
+                    elif par.attr not in fields:
+                        good = False
+                if isinstance(n, (ast.FunctionDef, ast.Lambda)) and n is not fn and any(isinstance(x, ast.Name) and x.id == v for x in ast.walk(n)):
+                    good = False
+            taken = {n.id for n in ast.walk(fn) if isinstance(n, ast.Name)} | {a.arg for a in fn.args.args}
+            if any(f"{v}__{f}" in taken for f in fields) or any(f"{v}__arg_{q}" in taken for q in params):
+                good = False
+            if not good:
+                break
+            plans.append((r2, fn, blk, i, st, v))
+        if not good:
+            continue
+        for r2, fn, blk, i, st, v in plans:
+            call = st.value
+            init_locals = {n.id for n in ast.walk(init) if isinstance(n, ast.Name) and isinstance(n.ctx, ast.Store)}
+            ren = {q: f"{v}__arg_{q}" for q in params}
+            ren.update({l: f"{v}__{l}_" for l in init_locals if l not in ren})
+
+            class InitT(ast.NodeTransformer):
+                def visit_Attribute(self, n):
+                    if isinstance(n.value, ast.Name) and n.value.id == "self":
+                        return ast.copy_location(ast.Name(id=f"{v}__{n.attr}", ctx=n.ctx), n)
+                    self.generic_visit(n)
+                    return n
+
+                def visit_Name(self, n):
+                    if n.id in ren:
+                        return ast.copy_location(ast.Name(id=ren[n.id], ctx=n.ctx), n)
+                    return n
+
+            pre = [ast.copy_location(ast.Assign(targets=[ast.Name(id=ren[q], ctx=ast.Store())], value=a), st) for q, a in zip(params, call.args)]
+            body = [InitT().visit(copy.deepcopy(x)) for x in _strip_doc(init.body)]
+            for x in pre + body:
+                ast.copy_location(x, st)
+                ast.fix_missing_locations(x)
+            blk[i:i + 1] = pre + body
+
+            class UseT(ast.NodeTransformer):
+                def visit_Call(self, n):
+                    if isinstance(n.func, ast.Attribute) and isinstance(n.func.value, ast.Name) and n.func.value.id == v and n.func.attr in methods:
+                        mnode, expr = methods[n.func.attr]
+                        m_args = [a.arg for a in mnode.args.args[1:]]
+                        sub = dict(zip(m_args, n.args))
+
+                        class M(ast.NodeTransformer):
+                            def visit_Attribute(self, a):
+                                if isinstance(a.value, ast.Name) and a.value.id == "self":
+                                    return ast.copy_location(ast.Name(id=f"{v}__{a.attr}", ctx=ast.Load()), a)
+                                self.generic_visit(a)
+                                return a
+
+                            def visit_Name(self, a):
+                                if a.id in sub and isinstance(a.ctx, ast.Load):
+                                    return copy.deepcopy(sub[a.id])
+                                return a
+
+                        out = M().visit(copy.deepcopy(expr))
+                        ast.copy_location(out, n)
+                        ast.fix_missing_locations(out)
+                        return out
+                    self.generic_visit(n)
+                    return n
+
+                def visit_Attribute(self, n):
+                    if isinstance(n.value, ast.Name) and n.value.id == v and n.attr in fields:
+                        return ast.copy_location(ast.Name(id=f"{v}__{n.attr}", ctx=ast.Load()), n)
+                    self.generic_visit(n)
+                    return n
+
+            for k, x in enumerate(fn.body):
+                fn.body[k] = UseT().visit(x)
+            ast.fix_missing_locations(fn)
+            changed.add(r2)
+        trees[rel].body = [x for x in trees[rel].body if x is not cnode]
+        changed.add(rel)
+        report.append(("scalarised-object", f"{rel}:{K}"))
+    return changed
+
+
 def undo(trees, unknown, report):
     """all three steps; returns the relpaths whose tree changed"""
     from .canon import canonicalise
@@ -1931,6 +2135,10 @@ def undo(trees, unknown, report):
     for rel in e2:
         canonicalise(trees[rel])
     changed |= e2
+    e5 = scalarise_local_objects(trees, report, unknown if isinstance(unknown, set) else None)
+    for rel in e5:
+        canonicalise(trees[rel])
+    changed |= e5
     if isinstance(unknown, set) and not unknown:
         # no new function, but a known one may have got a new carrier parameter (a record class that was just lowered)
         b = flatten_tuple_params(trees, unknown, report)
